@@ -4,8 +4,9 @@
    Scope. Machine-checked here: (1) internal/leb128 as modelled in coq/Wasm/Leb.v — totality, ranges,
    round trips, canonical length; (2) the resource skeleton of binary.DecodeModule as modelled in
    coq/Wasm/Decode.v — no hang (every loop consumes input or stops), loop iterations and guarded
-   allocation linear in the input length, the amplification that commit 14ba147 removed, and the
-   amplification that REMAINS in /repo's HEAD (export vector, locals, name-section maps, byte buffers).
+   allocation linear in the input length, the amplification that commit 14ba147 removed, the amplification
+   found on /repo 7267a3c (export vector, locals, name-section maps, byte buffers) and what the patches of
+   notes/fix-c03-*.patch change (the locals stay open).
    Both models are tied to the Go code by the correspondence runs of checks/c03.py.
    NOT proved: type soundness of the function validator against the execution semantics
    (func_validation.go vs both engines; WasmCert-scale). That half of the property — "every accepted
@@ -60,43 +61,63 @@ Proof. exact decode_progress. Qed.
 Print Assumptions C03_decode_progress.
 
 (* ---- DecodeModule: allocation ---- *)
+(* Configurations (coq/Wasm/Decode.v): [coded] follows /repo's working tree through one switch per finding;
+   [found_at_7267a3c] is /repo when the findings below were made; [repaired L] has every patch of
+   notes/fix-c03-{1,3,4,5}.patch and accepts at most L locals per function ([repaired (2^32-1)] is /repo once
+   those patches are committed: the locals stay an open finding). *)
 
-(* /repo HEAD, all inputs: the allocation requested at the sites guarded by commit 14ba147 (type, import,
-   function, table, memory, global, element, code, data vectors and both element-init vectors) is linear.
-   PARTIAL: it says nothing about [au], the sites HEAD leaves unguarded — see the next two theorems. *)
+(* All inputs, the configuration compared with /repo on every run: the allocation requested at the sites
+   guarded by commit 14ba147 (type, import, function, table, memory, global, element, code, data vectors and
+   both element-init vectors) is linear. PARTIAL: it says nothing about [au] — export vector, name maps,
+   byte buffers, locals. *)
 Theorem C03_alloc_linear_partial : forall bs, ag (cost_of (DecodeModule coded bs)) <= 88 * len bs + 88.
-Proof. exact alloc_linear_guarded_sites. Qed.
+Proof. exact alloc_linear_coded. Qed.
 Print Assumptions C03_alloc_linear_partial.
 
-(* With the guards in place everywhere (count/size <= remaining bytes before every count-sized make, at most
-   L locals per function) the WHOLE modelled allocation is linear: this is a statement about a repaired
-   decoder, not about HEAD. *)
+(* With the guards in place everywhere (fixes 1, 3, 4; at most L locals per function) the WHOLE modelled
+   allocation is linear. For L = 2^32-1 this is /repo with the patches: linear, but with the absurd constant
+   that the unbounded locals leave. *)
 Theorem C03_alloc_linear : forall L bs, 0 <= L ->
   ag (cost_of (DecodeModule (repaired L) bs)) + au (cost_of (DecodeModule (repaired L) bs)) <= (146 + L) * len bs + (146 + L).
 Proof. exact alloc_linear_repaired. Qed.
 Print Assumptions C03_alloc_linear.
 
-(* before 14ba147: a 14-byte input requests 2^24 FunctionType elements; HEAD requests nothing for it *)
+(* before 14ba147: a 14-byte input requests 2^24 FunctionType elements; with the guards nothing *)
 Theorem C03_alloc_amplification_before_fix :
   len in_type_2p24 = 14 /\ 80 * 2 ^ 24 <= ag (cost_of (DecodeModule before_fix in_type_2p24)) /\
-  ag (cost_of (DecodeModule coded in_type_2p24)) = 0 /\ au (cost_of (DecodeModule coded in_type_2p24)) = 0.
+  ag (cost_of (DecodeModule found_at_7267a3c in_type_2p24)) = 0 /\ au (cost_of (DecodeModule found_at_7267a3c in_type_2p24)) = 0.
 Proof. exact (conj (proj1 amplification_before_fix) (conj (proj2 amplification_before_fix) guard_effective)). Qed.
 Print Assumptions C03_alloc_amplification_before_fix.
 
-(* HEAD, still (open finding): 15 bytes request a (2^32-1)-entry export vector and map; a VALID 30-byte module
-   declares 2^32-1 locals (allocated and filled one by one); 22 bytes request a (2^32-1)-entry name map;
-   20 bytes request a (2^32-1)-byte data buffer. The hypothetical guards remove all four. *)
+(* /repo at 7267a3c: 15 bytes request a (2^32-1)-entry export vector and map; a VALID 30-byte module declares
+   2^32-1 locals (allocated and filled one by one); 22 bytes request a (2^32-1)-entry name map; 20 bytes
+   request a (2^32-1)-byte data buffer. *)
 Theorem C03_alloc_amplification_remaining :
-  (len in_export_max = 15 /\ 56 * (2 ^ 32 - 1) <= au (cost_of (DecodeModule coded in_export_max))) /\
-  (len in_locals_max = 30 /\ accepted (DecodeModule coded in_locals_max) = true /\
-     2 ^ 32 - 1 <= au (cost_of (DecodeModule coded in_locals_max))) /\
-  (len in_names_max = 22 /\ 24 * (2 ^ 32 - 1) <= au (cost_of (DecodeModule coded in_names_max))) /\
-  (len in_data_max = 20 /\ 2 ^ 32 - 1 <= au (cost_of (DecodeModule coded in_data_max))).
+  (len in_export_max = 15 /\ 56 * (2 ^ 32 - 1) <= au (cost_of (DecodeModule found_at_7267a3c in_export_max))) /\
+  (len in_locals_max = 30 /\ accepted (DecodeModule found_at_7267a3c in_locals_max) = true /\
+     2 ^ 32 - 1 <= au (cost_of (DecodeModule found_at_7267a3c in_locals_max))) /\
+  (len in_names_max = 22 /\ 24 * (2 ^ 32 - 1) <= au (cost_of (DecodeModule found_at_7267a3c in_names_max))) /\
+  (len in_data_max = 20 /\ 2 ^ 32 - 1 <= au (cost_of (DecodeModule found_at_7267a3c in_data_max))).
 Proof. exact amplification_remaining. Qed.
 Print Assumptions C03_alloc_amplification_remaining.
 
-(* HEAD (open finding): a custom section with an empty payload is rejected iff it is the last section *)
-Theorem C03_custom_empty_payload_as_coded :
-  accepted (DecodeModule coded in_custom_empty_last) = false /\ accepted (DecodeModule coded in_custom_empty_mid) = true.
-Proof. exact custom_empty_payload_as_coded. Qed.
-Print Assumptions C03_custom_empty_payload_as_coded.
+(* with the patches: export, name map and data buffer request (almost) nothing for those inputs; the valid module
+   with 2^32-1 locals is still accepted and still requests them (OPEN finding); a limit of 50000 rejects it *)
+Theorem C03_alloc_after_fixes :
+  au (cost_of (DecodeModule (repaired 4294967295) in_export_max)) = 0 /\
+  au (cost_of (DecodeModule (repaired 4294967295) in_names_max)) <= 24 /\
+  au (cost_of (DecodeModule (repaired 4294967295) in_data_max)) = 0 /\
+  accepted (DecodeModule (repaired 4294967295) in_locals_max) = true /\
+  2 ^ 32 - 1 <= au (cost_of (DecodeModule (repaired 4294967295) in_locals_max)) /\
+  accepted (DecodeModule (repaired 50000) in_locals_max) = false /\ au (cost_of (DecodeModule (repaired 50000) in_locals_max)) = 0.
+Proof. exact after_fixes. Qed.
+Print Assumptions C03_alloc_after_fixes.
+
+(* a custom section with an empty payload: rejected iff last on 7267a3c, accepted everywhere with fix 5 *)
+Theorem C03_custom_empty_payload :
+  accepted (DecodeModule found_at_7267a3c in_custom_empty_last) = false /\
+  accepted (DecodeModule found_at_7267a3c in_custom_empty_mid) = true /\
+  accepted (DecodeModule (repaired 4294967295) in_custom_empty_last) = true /\
+  accepted (DecodeModule (repaired 4294967295) in_custom_empty_mid) = true.
+Proof. exact custom_empty_payload. Qed.
+Print Assumptions C03_custom_empty_payload.
